@@ -71,6 +71,7 @@ class RecordingProblem(Problem):
         self._side = np.array(upper, dtype=float) - self._lo
         self.G = G
         self.log = []
+        self.ng = 0
         self.cap = cap
         self.fault = fault          # (k, exception factory): raise on the k-th call (1-based)
         self.budget_violation = False
@@ -86,7 +87,9 @@ class RecordingProblem(Problem):
         ph = PHASE[-1] if PHASE else "g"
         ent = {"i": i, "y": y, "v": None, "ph": ph, "exc": None}
         self.log.append(ent)
-        if self.cap is not None and i > self.cap:
+        if ph == "g":
+            self.ng += 1
+        if self.cap is not None and ph == "g" and self.ng > self.cap:
             self.budget_violation = True
             ent["exc"] = "BudgetAbort"
             raise BudgetAbort("evaluation cap %d exceeded" % self.cap)
@@ -114,6 +117,7 @@ class ProxyProblem(Problem):
         if hasattr(inner, "dimension"):
             self.dimension = inner.dimension
         self.log = []
+        self.ng = 0
         self.cap = cap
         self.budget_violation = False
         self.inside_hook = None
@@ -129,8 +133,11 @@ class ProxyProblem(Problem):
         ph = PHASE[-1] if PHASE else "g"
         ent = {"i": i, "y": y, "v": None, "ph": ph, "exc": None}
         self.log.append(ent)
-        if self.cap is not None and i > self.cap:
+        if ph == "g":
+            self.ng += 1
+        if self.cap is not None and ph == "g" and self.ng > self.cap:
             self.budget_violation = True
+            ent["exc"] = "BudgetAbort"
             raise BudgetAbort("evaluation cap %d exceeded" % self.cap)
         if self.inside_hook is not None and ph == "g":
             self.inside_hook(self)
@@ -264,8 +271,6 @@ def run_solver(scn, listener=True, cap="auto", fault=None, after_step=None, insi
         if cap == "auto":
             steps = sum(s[1] for s in scn.get("pattern", [["solve"]]) if s[0] == "iter")
             hard = scn["iters"] + steps + 8
-            if scn.get("refine"):
-                hard = None
         elif cap is not None:
             hard = cap
         problem, info = make_problem(scn, cap=hard, fault=fault)
